@@ -5,7 +5,7 @@ import random
 from .. import common as C
 from ..gen_inv import PlanGen
 from .. import progcheck as PC
-from .dispatch_common import plan_summary
+from .dispatch_common import plan_summary, d4_blocks
 
 
 PROP = "C04"
@@ -23,11 +23,9 @@ def signature(plan, ev):
                 ti, tj = plan.block_text(i), plan.block_text(j)
                 if ti == tj:
                     return "F-D12"
-                (fi, _, mi), (fj, _, mj) = blocks[i], blocks[j]
-                if fi == fj:
-                    nested = mi if mi.theta else (mj if mj.theta else None)
-                    if nested is not None and nested.custom_bounds is not None and any(b[0][0] == "tp" for b in nested.custom_bounds):
-                        return "F-D4"
+                # D4: the nested block bounds a parameter that lies strictly inside the value of a general-header parameter
+                if {i, j} & d4_blocks(plan):
+                    return "F-D4"
     return None
 
 
